@@ -24,8 +24,10 @@ import sys
 import tempfile
 import time
 
-from ..common import Acc, short
+from .. import build
+from ..common import Acc, short, chunks
 from . import _c17_cases as C
+from . import _c17_fault as F
 from . import _c17_guard as G
 
 FLAVOUR = "asan"
@@ -412,6 +414,7 @@ def run(ctx):
     tasks, planned = all_tasks(tier, ctx.seed, ctx.workers)
     nshards = sum(len(t[0]) for t in tasks)
     ctx.pmap(shard_worker, tasks)
+    fault_part(ctx)
     a = ctx.acc
     d = a.distinct
     # ---- native call accounting ------------------------------------------------------------------
@@ -476,13 +479,61 @@ def run(ctx):
         "grid": grid_description(tier),
     })
     ctx.assume("data values: one seeded SHAKE256 stream (VERIF_SEED) for keys, nonces, messages; structure enumeration is seed-independent")
-    ctx.assume("allocation failure paths: only those reachable with allocator_may_return_null=1 on absurd sizes; no fault injection into malloc")
+    ctx.assume("allocation failure paths: allocations of the library's own native code are refused exhaustively in the workloads of "
+               "the fault part (one refusal, or all from one point on); two simultaneous isolated refusals, allocations inside libgmp/"
+               "libc/Python and the length grids of the main part under allocation failure are not explored")
     ctx.assume("entry points the Python API cannot reach are listed in native_functions_never_reached and are not exercised")
     ctx.assume("deep mode passes partially overlapping buffer arguments and buffers larger than 17 pages through unrelocated "
                "(counted in deep_passed_overlap / deep_passed_large)")
     ctx.assume("a native call that does not return (hang) is logged as an observation: it is not a memory-safety verdict; "
                "Crypto.Cipher._EKSBlowfish with a zero-length key is excluded for that reason (blowfish.c xorP loops forever)")
     ctx.assume("uninitialised-memory reads (MSan) and leaks (detect_leaks=0) are not part of this check")
+
+
+def fault_part(ctx):
+    """part "fault": every allocation of the library's native code refused once (see _c17_fault.py)"""
+    if not os.path.isfile(F.SHIM):
+        r = subprocess.run(["make", "-s", "-C", os.path.dirname(F.SHIM)], stdout=subprocess.PIPE, stderr=subprocess.STDOUT,
+                           env=clean_env())
+        if r.returncode:
+            ctx.acc.error("cannot build libvfault.so: " + r.stdout.decode()[-500:])
+            return
+    tree = None
+    try:
+        tree, info = build.build("C17f", "fault")
+        names = F.workload_names()
+        if ctx.tier != "thorough":
+            # quick: the NIST curves share one native library; two of the five (one generic field, P-521's special
+            # field) stand for all; thorough runs every workload
+            names = [n for n in names if not any(n.endswith(c) for c in ("-p192", "-p224", "-p384"))]
+        a0 = ctx.acc
+        ctx.pmap(F.fault_worker, [[(tree, g)] for g in chunks(names, max(ctx.workers, 8) * 2) if g])
+        done = {w[0] for w in a0.distinct.get("fault_workloads", ())}
+        ctx.require(done >= set(names), "fault part: workloads not explored: %s" % sorted(set(names) - done)[:6])
+        ctx.require(a0.n.get("fault_executions", 0) >= 2 * a0.n.get("fault_allocation_sites_visited", 0) > 1000 or bool(a0.caps),
+                    "fault part: %d executions for %d allocations" % (a0.n.get("fault_executions", 0),
+                                                                      a0.n.get("fault_allocation_sites_visited", 0)))
+        ctx.require(a0.n.get("fault_raised", 0) > 0.9 * a0.n.get("fault_executions", 1) or a0.n.get("fault_child_deaths", 0) > 0,
+                    "fault part: refused allocations were (almost) never reported as exceptions")
+        ctx.coverage_extra["allocation_failure_exploration"] = {
+            "what": "every allocation made by the library's native code in each workload is refused: once alone (mode 1) and "
+                    "once together with all later allocations (mode 2); the process must survive under AddressSanitizer and the "
+                    "call must raise or return the undisturbed result; an undisturbed run afterwards must give that result again",
+            "workloads": len(done),
+            "allocations_per_workload": {n: k for n, k in sorted(a0.distinct.get("fault_allocs", ()))},
+            "fault_points": a0.n.get("fault_allocation_sites_visited", 0),
+            "executions": a0.n.get("fault_executions", 0),
+            "executions_that_raised": a0.n.get("fault_raised", 0),
+            "executions_with_the_undisturbed_result": a0.n.get("fault_same_result", 0),
+            "exception_classes": sorted(a0.distinct.get("fault_exc_kinds", ())),
+            "child_deaths": a0.n.get("fault_child_deaths", 0),
+            "build": {k: info[k] for k in ("flavour", "src_hash", "extensions")},
+        }
+    except build.BuildError as e:
+        ctx.acc.error("fault build failed: %s" % e)
+    finally:
+        if tree:
+            build.cleanup(tree)
 
 
 def grid_description(tier):
@@ -526,6 +577,17 @@ def grid_description(tier):
 # ---------------------------------------------------------------------------------------------------
 def replay(case, acc):
     """run the single recorded case in a fresh child; the child dying / reporting again reproduces the key"""
+    if case.get("fault"):
+        tree = None
+        try:
+            tree, _ = build.build("C17fr", "fault")
+            F.replay(case, acc, tree)
+        except build.BuildError as e:
+            acc.error("fault build failed: %s" % e)
+        finally:
+            if tree:
+                build.cleanup(tree)
+        return
     c = _tuplify(case["case"])
     deep = bool(case.get("deep"))
     tier = case.get("tier", "quick")
